@@ -117,3 +117,111 @@ Definition oracle01 (c : caseE) : bool :=
   | _ => true
   end.
 Definition check01 := check_with oracle01.
+
+(* ---- C02 / C03: the independent decoder of Spec/Walk.v on the implementation's bytes *)
+From LOF Require Import Spec.Walk.
+
+Definition val_eqb (a b : val) : bool :=
+  match a, b with
+  | VN x, VN y => N.eqb x y
+  | VB x, VB y => bytes_eqb x y
+  | _, _ => false
+  end.
+Fixpoint list_eqb {A} (eq : A -> A -> bool) (a b : list A) : bool :=
+  match a, b with
+  | [], [] => true
+  | x :: a', y :: b' => eq x y && list_eqb eq a' b'
+  | _, _ => false
+  end.
+Definition kind_code (k : kind) : N :=
+  match k with
+  | KMatch => 0 | KMatchField => 1 | KActOutput => 2 | KActSetQueue => 3 | KActGroup => 4 | KActDecNwTtl => 5
+  | KActPopVlan => 6 | KActPush => 7 | KActPopMpls => 8 | KActSetField => 9 | KActHeader => 10
+  | KNxConjunction => 11 | KNxConnTrack => 12 | KNxRegLoad => 13 | KNxRegMove => 14 | KNxResubmit => 15
+  | KNxResubmitTable => 16 | KNxNat => 17 | KNxOutputReg => 18 | KNxCtClear => 19 | KNxDecTtl => 20
+  | KNxDecTtlCntIds => 21 | KNxLearn => 22 | KLearnSpec => 23 | KNxNote => 24 | KNxRegLoad2 => 25
+  | KNxController => 26 | KInstrGoto => 27 | KInstrWriteMeta => 28 | KInstrActions => 29 | KBucket => 30
+  | KHeaderOnly => 31 | KHello => 32 | KHelloElemBitmap => 33 | KSwitchConfig => 34 | KFlowMod => 35
+  | KGroupMod => 36 | KPacketOut => 37 | KPortMod => 38 | KMultipartReq => 39 | KFlowStatsReq => 40
+  | KAggStatsReq => 41 | KPortStatsReq => 42 | KQueueStatsReq => 43 | KVendor => 44 | KControllerID => 45
+  | KTlvTableMod => 46 | KTlvMap => 47 | KBundleCtrl => 48 | KBundleAdd => 49 | KBundleProp => 50 | KRaw => 51
+  end.
+Fixpoint tree_eqb (a b : tree) : bool :=
+  match a, b with
+  | T ka va kka, T kb vb kkb =>
+    N.eqb (kind_code ka) (kind_code kb) && list_eqb val_eqb va vb &&
+    (fix go (x y : list tree) : bool :=
+       match x, y with
+       | [], [] => true
+       | p :: x', q :: y' => tree_eqb p q && go x' y'
+       | _, _ => false
+       end) kka kkb
+  end.
+
+(* what the independent decoder is expected to return for the value the API calls built:
+   the built value after MarshalBinary's write-backs, with two presentation differences -
+   a note's trailing padding belongs to the note on the wire, a slot filled by copy() is
+   seen at its fixed width, and an empty packet-out payload is no payload *)
+Fixpoint canon (t : tree) : tree :=
+  match t with
+  | T k vs kids =>
+    let kids' := map canon kids in
+    match k with
+    | KNxNote => match vs with
+                 | [a; b; c; d; VB note] => T k [a; b; c; d; VB (note ++ zeros (pad8 (10 + length note)))] kids'
+                 | _ => T k vs kids' end
+    | KPortMod => match vs with
+                  | h1 :: h2 :: h3 :: h4 :: p :: VB hw :: rest => T k (h1 :: h2 :: h3 :: h4 :: p :: VB (fit 6 hw) :: rest) kids'
+                  | _ => T k vs kids' end
+    | KPacketOut => T k vs (filter (fun x => match x with T KRaw [VB []] [] => false | _ => true end) kids')
+    | _ => T k vs kids'
+    end
+  end.
+
+Definition spec_of (e : erec) (b : list byte) : option tree :=
+  let whole (r : option (tree * list byte)) := match r with Some (t, []) => Some t | _ => None end in
+  match e with
+  | EMsg _ _ => spec_decode b
+  | EAct _ => whole (sdec_action (S (length b)) b)
+  | EMf _ => whole (sdec_oxm b)
+  | EInstr _ => whole (sdec_instr b)
+  | EBucket _ => whole (sdec_bucket b)
+  | EMatch _ => whole (sdec_match b)
+  end.
+
+Definition oracle02 (c : caseE) : bool :=
+  match c with
+  | Enc e rs hs kids =>
+    no_panic rs && match first_bytes rs with
+                   | Some b => match spec_of e b with Some _ => true | None => false end
+                   | None => false end
+  end.
+Definition check02 := check_with oracle02.
+
+(* known finding D10: port / queue statistics requests use the OpenFlow 1.0 body layout
+   (16-bit port number), so an OpenFlow 1.3 reader sees the port number shifted by 16 bits
+   and nothing else different *)
+Fixpoint apply_d10 (t : tree) : tree :=
+  match t with
+  | T KPortStatsReq [VN p] [] => T KPortStatsReq [VN (p * 65536)] []
+  | T KQueueStatsReq [VN p; q] [] => T KQueueStatsReq [VN (p * 65536); q] []
+  | T k vs kids => T k vs (map apply_d10 kids)
+  end.
+
+Definition verdict03 (c : caseE) : verdict :=
+  match c with
+  | Enc e rs hs kids =>
+    let agree := replay (model_of e) rs in
+    let expected := canon (norm (model_of e)) in
+    match (if no_panic rs then first_bytes rs else None) with
+    | Some b =>
+      match spec_of e b with
+      | Some t => if tree_eqb t expected then mkv agree true
+                  else if agree && tree_eqb t (apply_d10 expected) then VKnown 10
+                  else mkv agree false
+      | None => mkv agree false
+      end
+    | None => mkv agree false
+    end
+  end.
+Definition check03 := verdict03.
